@@ -90,6 +90,18 @@ def check(run: Run) -> None:
                     v = subst(v, bind)
                 dep_old = contains(v, lambda s: s == ("attr", cur, ATTR))
                 run.check(dep_old, "C16.R2", fi, n, "stored dictionary depends on the replaced node's _q_metadata", "the dictionary stored on the copied node is built from the new keys only: metadata carried by the node it replaces (set by the preceding QMetaData call) is dropped", "{**getattr(base_ast, '_q_metadata', {}), **q_metadata}", show(v))
+                if dep_old and v[0] == "dict":
+                    # .. all of it: spread whole, or filtered by nothing but the keys that are stored again
+                    inh = ("attr", cur, ATTR)
+                    spreads = [val_ for k_, val_ in v[1] if k_ == ("const", "**")]
+                    whole = any({x_ for x_ in unphi_terms(val_) if x_ != ("dict", ())} == {inh} for val_ in spreads)
+                    part_ok = False
+                    for i_, val_ in enumerate(spreads):
+                        if val_[0] == "comp" and contains(val_, lambda s_: s_ == inh) and len(val_[3]) == 1:
+                            conds_ = val_[3][0][1]
+                            later = spreads[i_ + 1:]
+                            part_ok = part_ok or all(c_[0] == "op" and c_[1] == "Compare:NotIn" and len(c_[2]) == 2 and c_[2][1] in later for c_ in conds_)
+                    run.check(whole or part_ok, "C16.R2", fi, n, "everything the replaced node carried is kept (unless stored again)", "the metadata carried by the replaced node is filtered before it is copied to the new node, by something other than the keys that are stored again: a key passed once more with the value it already has is neither carried over nor re-added and disappears from the path", "{**getattr(base_ast, '_q_metadata', {}), **q_metadata}", show(v), key="inherited query metadata filtered")
                 owners_ = _metadata_loops(m, ctx, q, mdp)
                 lo_ = owners_[0][0] if len(owners_) == 1 else None
                 if fi is q:
